@@ -53,7 +53,7 @@ def h_stale(e, mnems, K=None):
                 return ins
         return None
 
-    ref = pipe_ref.NoInterlockMachine(prog, c5.regs0.get, c5.mem0.abstract, K)
+    ref = pipe_ref.NoInterlockMachine(prog, c5.regs0.fork(), c5.mem0.fork(), K)
     ref.run(lookup)
     if ref.cut:
         from symx.core import PathCut
@@ -75,7 +75,13 @@ def h_stale(e, mnems, K=None):
         e.claim_eq("fault-address", s5.fault.address, ref.fault[0])
     e.claim_eq("registers", c5.reg(q), ref.reg_final(q))
     e.claim("canary:registers", cond("==", c5.reg(q), zx(ref.reg_final(q) + 1, 32)))
-    e.claim_eq("memory", c5.mem_byte(qa), ref.mem(qa))
+    if ref.fault is None:
+        e.claim_eq("memory", c5.mem_byte(qa), ref.mem(qa))
+    else:
+        # a faulting store may have written the bytes before the offending one (C18): compare
+        # outside the bytes the faulting access touches
+        untouched = land(*[cond("!=", qa, a) for a in ref.fault[2]])
+        e.claim("memory-outside-faulting-access", lor(lnot(untouched), cond("==", c5.mem_byte(qa), ref.mem(qa))))
     e.claim_eq("output", st5.output, ref.out)
     e.claim_eq("exit_code", st5.exit_code, ref.exit_code)
     if s5.fault is None and ref.fault is None:
@@ -87,7 +93,9 @@ def h_stale(e, mnems, K=None):
         want_w = [t.W for t in ref.timing.toks]
         e.claim("retire-cycles", impl_w == want_w, {"impl": impl_w, "ref": want_w})
         e.claim("cycles", pm.cycles == ref.timing.total_cycles(), {"impl": pm.cycles, "ref": ref.timing.total_cycles()})
-        e.claim("stalls-are-ecall-drains-only", pm.stalls == ref.timing.ecall_waits, {"stalls": pm.stalls, "ecall_waits": ref.timing.ecall_waits})
+        e.claim("no-decode-stage-stall", s5.decode_stalls == 0, {"decode_stall_cycles": s5.decode_stalls})
+        # the stall counter may exceed the reference's ecall drains only by wrong-path ecalls
+        e.claim("stalls-at-least-ecall-drains", pm.stalls >= ref.timing.ecall_waits, {"stalls": pm.stalls, "ecall_waits": ref.timing.ecall_waits})
         e.claim("canary:cycles", pm.cycles == ref.timing.total_cycles() + 1)
 
 
@@ -121,8 +129,7 @@ def h_padded(e, mnems, K=None):
 
     compare_final(e, s1, s5)
     pm = c5.sim.state.performance_metrics
-    necalls = sum(1 for a in s5.retired if False)
-    e.claim("no-decode-stall", pm.stalls <= s5.ecalls + (1 if s5.fault is not None else 0), {"stalls": pm.stalls, "ecalls": s5.ecalls})
+    e.claim("no-decode-stage-stall", s5.decode_stalls == 0, {"decode_stall_cycles": s5.decode_stalls})
 
 
 HARNESSES = {"stale": h_stale, "padded": h_padded}
